@@ -511,6 +511,9 @@ func exercise2(c *kase, s *subject2, rays, balls, points int) {
 	rng := c.Rng
 	for i := 0; i < rays; i++ {
 		o, d := genRay2(rng, s)
+		if rng.Intn(4) == 0 {
+			abandonEnumeration2(c, s, rng)
+		}
 		checkRay2(c, s, o, d)
 	}
 	for i := 0; i < balls; i++ {
@@ -557,4 +560,27 @@ func minPart2(sh ref.Shape2) float64 {
 		return math.Min(t.Size(), t.R)
 	}
 	return sh.Size()
+}
+
+// abandonEnumeration2: see abandonEnumeration3.
+func abandonEnumeration2(c *kase, s *subject2, rng *rand.Rand) {
+	o, d := genRay2(rng, s)
+	after := rng.Intn(3)
+	seen := 0
+	func() {
+		defer func() {
+			if e := recover(); e != nil {
+				if _, ok := e.(abandonSentinel); !ok {
+					panic(e)
+				}
+				c.Count("history.enumerations_abandoned_from_the_callback", 1)
+			}
+		}()
+		s.coll.RayCollisions(&model2d.Ray{Origin: o.C2(), Direction: d.C2()}, func(model2d.RayCollision) {
+			if seen == after {
+				panic(abandonSentinel{})
+			}
+			seen++
+		})
+	}()
 }
